@@ -249,32 +249,37 @@ Section CooProofs.
         destruct (m - k) as [|p] eqn:Ep; [lia|]. cbn [nth]. rewrite nth_skipn'. f_equal. lia.
   Qed.
 
-  Theorem coo_dot_spec (c : coo R) (x : list R) n A z :
-    c_shape c = [n; n] -> length x = n -> to_dense2 R rO radd c = Some A -> coo_dot R rO radd rmul c x [] = Some z ->
+  (* rectangular: data of shape (nr, nc), x of length nc, result of length nr *)
+  Theorem coo_dot_n_spec (c : coo R) (x : list R) nr nc A z :
+    c_shape c = [nr; nc] -> length x = nc -> to_dense2 R rO radd c = Some A -> coo_dot_n R rO radd rmul nr c x [] = Some z ->
     z = matvec R rO radd rmul A x.
   Proof.
-    intros Sc Lx EA Ez. unfold to_dense2 in EA. rewrite Sc in EA. unfold coo_dot in Ez.
+    intros Sc Lx EA Ez. unfold to_dense2 in EA. rewrite Sc in EA. unfold coo_dot_n in Ez.
     destruct (_ && _) in Ez; [|discriminate]. simpl in Ez. inversion Ez; subst z; clear Ez.
     assert (HA := EA). unfold dense2 in HA. destruct (_ && _) in HA; [|discriminate].
     inversion HA; subst A; clear HA. unfold matvec. rewrite map_map. rewrite Lx.
     apply map_ext_in. intros r Hr. apply in_seq in Hr.
-    (* sum_k [rows k = r] d_k x_{cols k}  =  sum_c (sum_k [rows k = r][cols k = c] d_k) x_c *)
-    transitivity (Sn n (fun cc => Sn (length (c_data c)) (fun k =>
+    transitivity (Sn nc (fun cc => Sn (length (c_data c)) (fun k =>
        if nth k (nth 0 (c_indices c) []) 0 =? r then
          (if nth k (nth 1 (c_indices c) []) 0 =? cc then nth k (c_data c) rO [*] nth cc x rO else rO) else rO))).
     - rewrite (sumn_exchange R rO rI radd rmul rsub ropp Rth). apply sumn_ext. intros k Hk.
       destruct (nth k (nth 0 (c_indices c) []) 0 =? r).
-      + destruct (Nat.lt_ge_cases (nth k (nth 1 (c_indices c) []) 0) n) as [Hc|Hc].
-        * symmetry. apply (sumn_delta R rO rI radd rmul rsub ropp Rth n _
+      + destruct (Nat.lt_ge_cases (nth k (nth 1 (c_indices c) []) 0) nc) as [Hc|Hc].
+        * symmetry. apply (sumn_delta R rO rI radd rmul rsub ropp Rth nc _
                             (fun cc => nth k (c_data c) rO [*] nth cc x rO) Hc).
         * rewrite (nth_overflow x) by lia.
-          rewrite (sumn_delta_out R rO rI radd rmul rsub ropp Rth n _
+          rewrite (sumn_delta_out R rO rI radd rmul rsub ropp Rth nc _
                      (fun cc => nth k (c_data c) rO [*] nth cc x rO) Hc). ring.
       + symmetry. apply (sumn_zero R rO rI radd rmul rsub ropp Rth).
     - apply sumn_ext. intros cc Hcc. rewrite nth_map_seq0 by assumption.
       rewrite <- (sumn_scale_r R rO rI radd rmul rsub ropp Rth). apply sumn_ext. intros k Hk.
       destruct (_ =? r); [destruct (_ =? cc)|]; ring.
   Qed.
+
+  Theorem coo_dot_spec (c : coo R) (x : list R) n A z :
+    c_shape c = [n; n] -> length x = n -> to_dense2 R rO radd c = Some A -> coo_dot R rO radd rmul c x [] = Some z ->
+    z = matvec R rO radd rmul A x.
+  Proof. intros Sc Lx EA Ez. unfold coo_dot in Ez. rewrite Lx in Ez. exact (coo_dot_n_spec c x n n A z Sc Lx EA Ez). Qed.
 
   (* ---- the local matrices of an assembled bilinear form: with data laid out as BilinearForm._assemble does
      (position (j*Nv+i)*nt+e holds K j i e) and the declared local shape (Nv, Nu), the F-order reshape returns
